@@ -21,7 +21,7 @@ func init() {
 			"(R27.1) for every type with its own MarshalJSON and DecodeJSON/UnmarshalJSON the flattened JSON keys written by the marshaler are exactly the keys the decoder reads (tabled exemptions per key); " +
 			"(R27.2) every field of such a type that is read while marshalling is assigned while decoding (the hint-only embedded part is restored by the encoder through SetHint); " +
 			"(R27.3) every hint variable of the protocol packages is registered exactly once in launch.Hinters / SupportedProposalOperationFactHinters with an instance whose Hint() can carry it and which has a decoder, and no two registered hints share a type name; " +
-			"(R27.4) jsonenc.Encoder hands out a decoded object only if the hint was found among the registered decoders and the decoder did not fail, and the decoder set caches exactly what its uncached lookup answers; (R27.5) the time text layout printed by util.RFC3339 has a fixed-width fraction and is parsed with the layout that accepts it.",
+			"(R27.4) jsonenc.Encoder hands out a decoded object only if the hint was found among the registered decoders and the decoder did not fail, and the decoder set caches exactly what its uncached lookup answers; (R27.5) the time text layout printed by util.RFC3339 has a fixed-width fraction and is parsed with the layout that accepts it. HeightDecoder answers NilHeight only when nothing was decoded.",
 		NotDecided: "byte-for-byte re-encoding, hash equality and validity after decoding; encoders of third-party types; values whose JSON form is a scalar.",
 		Run:        runC27,
 	})
@@ -358,6 +358,13 @@ func (c *Ctx) jsonTypes() []*types.Named {
 var keyExempt = map[string]string{}
 
 func runC27(c *Ctx) {
+	// a decoded height is handed back as decoded: "absent" (NilHeight) is answered only when no height was
+	// decoded — height 0 is a height
+	c.Rule("R27.2", "MustPass")
+	if fn := c.Need("base.(HeightDecoder).Height"); fn != nil {
+		c.MP(fn, "HeightDecoder: NilHeight only when nothing was decoded", c.ReturnsD(fn, 0, "base.NilHeight"), 1, GFalse("d.decoded"))
+		c.Exists(fn, "HeightDecoder: the decoded height is handed back", c.ReturnsD(fn, 0, "d.h"), 1)
+	}
 	debug := os.Getenv("C27_DEBUG") != ""
 	// R27.1 --------------------------------------------------------------------------------------
 	c.Rule("R27.1", "KeyTable")
